@@ -91,12 +91,11 @@ Definition h_keys (m : hmap) : list Z := map fst m.
 Definition h_len (m : hmap) : Z := Z.of_nat (length m).
 
 (* ------------------------------------------------------------------ decidable permutation *)
-Fixpoint count (l : list Z) (x : Z) : nat :=
-  match l with [] => O | y :: l' => if Z.eqb y x then S (count l' x) else count l' x end.
+Definition count (l : list Z) (x : Z) : nat := count_occ Z.eq_dec l x.
 
 (* is `a` a permutation of `b`?  Used only to validate oracle choices. *)
 Definition perm_b (a b : list Z) : bool :=
-  Nat.eqb (length a) (length b) && forallb (fun x => Nat.eqb (count a x) (count b x)) a.
+  forallb (fun x => Nat.eqb (count a x) (count b x)) (a ++ b).
 
 (* ------------------------------------------------------------------ the Set *)
 Record set := mkSet { s_hash : option hmap; s_list : option store; s_next : handle; s_mtx : bool }.
